@@ -39,9 +39,11 @@ RULE = ("digits: every digit string of length<=5 over every base tuple with entr
         "{0,1,2} with cells<=8, every 2- and 3-key result with asymmetric key shapes up to a cell bound, wide rows "
         "(63/64/65/70 qubits, 39/40 qutrits; one-hot/one-cold at every position, alternating patterns, all ordered "
         "row tuples) x dtype (bool/int8/uint8/int64) x constructor (records=/measurements=/EngineResult/from_result): "
-        "all views vs a nested-list reference; all ordered pairs of small results for ==/+; every Sampler entry point "
+        "all views (incl. cirq.vis.get_state_histogram over key orders that differ from sorted order) vs a nested-list reference, "
+        "each result also rebuilt from non-C-contiguous arrays (Fortran, swapaxes, strided, negative-stride views); all ordered pairs of small results for ==/+; every Sampler entry point "
         "x fake sampler kind x circuit x sweepable x repetitions, run_batch over all program/params/repetitions tuples "
-        "incl. length mismatches. non-trivial = tensor has two different digits and >=1 repetition (results), "
+        "incl. length mismatches; simulators on deterministic circuits incl. repeated terminal keys with differing instances "
+        "(run(n) == n x run(1) == reference). non-trivial = tensor has two different digits and >=1 repetition (results), "
         "digit string of length>=2 (digits), >=2 underlying runs or >=2 repetitions (samplers); distinct = distinct "
         "case descriptor")
 TECHNIQUE = ("bounded-exhaustive enumeration of all record tensors / digit strings / sampler call shapes against a "
